@@ -5,8 +5,10 @@ import ast
 
 from .. import astutil as A
 from ..core import AnalysisError, Collector
-from ..refsmodel import ref_classes
-from .common import FnCtx, fnctx, is_method_call, is_self_call
+from .. import sym as S
+from .common import FnCtx, fnctx, sctx, is_method_call, is_self_call
+from .c04 import model
+from . import c01, c02
 from .toposort_rules import check_toposort
 
 PROP = "C20"
@@ -33,72 +35,131 @@ COMPILED_BRANCHES = {
 
 # unordered iterations that are order-insensitive, with the reason (one named construct per line)
 BENIGN_UNORDERED = {
-    "Manager.unregister#for-over:task.dependencies": "removals from multisets commute",
-    "Manager.unregister#for-over:task.targets": "removals from multisets commute",
-    "Manager.register#for-over:task.dependencies": "adds to rdeps/deptasks keyed by the dependency itself: one insertion per key, "
+    "Manager.unregister#for-over:self.tasks[$p0].dependencies": "removals from multisets commute",
+    "Manager.unregister#for-over:self.tasks[$p0].targets": "removals from multisets commute",
+    "Manager.register#for-over:$p0.dependencies": "adds to rdeps/deptasks keyed by the dependency itself: one insertion per key, "
                                                     "order of *different* keys in a dict is never iterated by the scheduler",
     "ExprTask.info#for-over:self.expr._get_dependencies()": "diagnostic printout only",
-    "MutableRef._info2#for-over:task.expr._get_dependencies()": "diagnostic printout only",
-    "Manager.plot_deps#for-over:task.targets": "plot only",
-    "Manager.plot_deps#for-over:task.dependencies": "plot only",
-    "Manager.plot_tasks#for-over:task.dependencies": "plot only",
+    "MutableRef._info2#for-over:∈self._manager.tartasks[self].expr._get_dependencies()": "diagnostic printout only",
+    "Manager.plot_deps#for-over:∈self.find_tasks({$p0 | list(self.rdeps)}).targets": "plot only",
+    "Manager.plot_deps#for-over:∈self.find_tasks({$p0 | list(self.rdeps)}).dependencies": "plot only",
+    "Manager.plot_tasks#for-over:∈self.find_tasks({$p0 | list(self.rdeps)}).dependencies": "plot only",
 }
+
+
+EXACT_TYPES = {"tuple", "dict", "list", "set", "frozenset", "int", "float", "str", "bytes", "bool", "complex"}
 
 
 def _cinit_rules(col):
     repo = col.repo
-    for rc in ref_classes(repo):
-        cins = rc.cinits()
-        q = rc.name
-        # R3: cclass + declared fields
-        col.add("C20.R3", f"{q}#cclass", any(d.endswith("cclass") for d in rc.c.decorators), rc.c.module.loc(rc.c.node),
+    rm = model(col)
+    for c in rm.classes:
+        q = c.name
+        col.add("C20.R3", f"{q}#cclass", any(d.endswith("cclass") for d in c.decorators), c.module.loc(c.node),
                 "every reference class is a @cython.cclass (MutableRef.__setattr__ relies on it; a plain subclass behaves differently "
-                "in the two builds)", str(rc.c.decorators))
+                "in the two builds)", str(c.decorators))
+        # annotated parameters: Cython enforces exact builtin types (and its own classes) at call time, pure Python ignores them
+        typed = []
+        for mname, fn in c.methods.items():
+            for arg in fn.args.posonlyargs + fn.args.args + fn.args.kwonlyargs:
+                if arg.annotation is not None:
+                    nm = A.dotted(arg.annotation) or A.src(arg.annotation)
+                    if nm.split(".")[-1] in EXACT_TYPES or nm.startswith("cython.") or nm in rm.by_name:
+                        typed.append(f"{mname}({arg.arg}: {nm})")
+        col.add("C20.R3", f"{q}#no-enforced-parameter-types", not typed, c.module.loc(c.node),
+                "no method parameter of a cclass is annotated with a type Cython enforces (the compiled build would raise TypeError where "
+                "the pure build accepts the value)", str(typed))
+        cins = rm.cinits(c.name)
         if not cins:
             continue
-        undeclared = sorted(f for f in rc.assigned_fields() if f not in rc.declared)
-        col.add("C20.R3", f"{q}#assigns-declared-fields-only", not undeclared, rc.c.module.loc(rc.c.node),
+        stores = rm.field_stores(c.name)
+        undeclared = sorted(f for f in stores if f not in rm.declared(c.name))
+        col.add("C20.R3", f"{q}#assigns-declared-fields-only", not undeclared, c.module.loc(c.node),
                 "__cinit__ assigns only fields declared with cython.declare (an undeclared one exists only in the pure build)", str(undeclared))
-        # R2: same argument list along the MRO
-        sigs = {k.name: (A.params(fn)[1:], bool(fn.args.vararg), bool(fn.args.kwarg), sorted(A.param_defaults(fn))) for k, fn in cins}
+        sigs = {}
+        for k, sx in cins:
+            fn = sx.cx.orig_fn
+            sigs[k.name] = (A.params(fn)[1:], bool(fn.args.vararg), bool(fn.args.kwarg), sorted(A.param_defaults(fn)))
         first = list(sigs.values())[0]
-        same = all(len(s[0]) == len(first[0]) and s[1:3] == first[1:3] for s in sigs.values())
-        col.add("C20.R2", f"{q}#cinit-signatures-agree", same, rc.c.module.loc(rc.c.node),
+        same = all(len(s_[0]) == len(first[0]) and s_[1:3] == first[1:3] for s_ in sigs.values())
+        col.add("C20.R2", f"{q}#cinit-signatures-agree", same, c.module.loc(c.node),
                 "all __cinit__ methods along the MRO accept the same arguments (Cython passes the constructor arguments to each)", str(sigs))
-        # R1: each field assigned by one __cinit__ only; no read of a field assigned by another
-        assigned = {}
-        for k, fn in cins:
-            for n in A.walk(fn):
-                if isinstance(n, (ast.Assign, ast.AugAssign)):
-                    for t in (n.targets if isinstance(n, ast.Assign) else [n.target]):
-                        f = A.self_attr(t)
-                        if f:
-                            assigned.setdefault(f, set()).add(k.name)
-        multi = {f: sorted(ks) for f, ks in assigned.items() if len(ks) > 1}
-        col.add("C20.R1", f"{q}#field-assigned-by-one-cinit", not multi, rc.c.module.loc(rc.c.node),
+        assigned = {f: sorted({k.name for k, v, cd, sx, ev in lst}) for f, lst in stores.items()}
+        multi = {f: ks for f, ks in assigned.items() if len(ks) > 1}
+        col.add("C20.R1", f"{q}#field-assigned-by-one-cinit", not multi, c.module.loc(c.node),
                 "along the MRO every field is assigned by exactly one __cinit__ (with two, the last writer differs between "
                 "base-first Cython and the derived-first pure-Python simulation)", str(multi))
         cross = []
-        for k, fn in cins:
+        for k, sx in cins:
             own = {f for f, ks in assigned.items() if k.name in ks}
-            for n in A.walk(fn):
-                f = A.self_attr(n) if isinstance(n, ast.Attribute) and isinstance(n.ctx, ast.Load) else None
-                if f and f in assigned and f not in own:
-                    cross.append(f"{k.name}.__cinit__ reads self.{f} (assigned by {sorted(assigned[f])})")
-        col.add("C20.R1", f"{q}#no-cross-cinit-read", not cross, rc.c.module.loc(rc.c.node),
+            read = set()
+            for ev in sx.events:
+                for t in ([ev.term] if ev.kind == "call" else [ev.value] if ev.value is not None else []):
+                    for s_ in S.subterms(t):
+                        if S.is_attr(s_, S.SELF) and s_[2] in assigned and s_[2] not in own:
+                            read.add(s_[2])
+            for n in sx.cfg.nodes.values():
+                if n.kind == "test":
+                    for s_ in S.subterms(sx.sym.of(n.ast, n.id)):
+                        if S.is_attr(s_, S.SELF) and s_[2] in assigned and s_[2] not in own:
+                            read.add(s_[2])
+            for f in sorted(read):
+                cross.append(f"{k.name}.__cinit__ reads self.{f} (assigned by {assigned[f]})")
+        col.add("C20.R1", f"{q}#no-cross-cinit-read", not cross, c.module.loc(c.node),
                 "no __cinit__ reads a field assigned by another class's __cinit__ (not yet assigned in one of the two orders)", "; ".join(cross))
     # BaseRef.__init__ simulation walks the whole MRO and forwards the arguments
-    cx = fnctx(repo, "BaseRef", "__init__")
-    fors = [n for n in A.walk(cx.fn) if isinstance(n, ast.For)]
-    ok = len(fors) == 1 and A.src(fors[0].iter) in ("type(self).__mro__", "self.__class__.__mro__")
-    if ok:
-        calls = [c for c in A.calls(fors[0]) if isinstance(c.func, ast.Name)]
-        a = cx.fn.args
-        ok = any(len(c.args) >= 2 and A.dotted(c.args[0]) == "self" and isinstance(c.args[1], ast.Starred) and
-                 a.vararg and A.dotted(c.args[1].value) == a.vararg.arg and c.keywords and c.keywords[0].arg is None for c in calls)
-        ok = ok and not [n for n in A.walk(fors[0]) if isinstance(n, (ast.Break, ast.Continue, ast.Return))]
-    col.add("C20.R1", "BaseRef.__init__#simulates-full-cinit-chain", ok, cx.loc(cx.fn),
+    sx = rm.sx("BaseRef", "__init__")
+    ps = {t[2]: t for t in sx.sym.params.values() if t[:1] == ("param",)}
+    va = [t for n, t in ps.items() if n.startswith("*") and not n.startswith("**")]
+    kw = [t for n, t in ps.items() if n.startswith("**")]
+    mro = (("attr", S.fcall("type", S.SELF), "__mro__"), ("attr", ("attr", S.SELF, "__class__"), "__mro__"))
+    ok = False
+    if va and kw:
+        for ev in sx.events:
+            if ev.kind != "call":
+                continue
+            t = ev.term
+            f = t[1]
+            is_cinit = S.match(f, S.fcall("getattr", ("elem", S.V("m", lambda x: x in mro)), ("const", repr("__cinit__")), S.ANY)) is not None \
+                or S.match(f, ("attr", ("elem", S.V("m", lambda x: x in mro)), "__cinit__")) is not None
+            if is_cinit and t[2] == (S.SELF, ("uop", "*", va[0])) and dict(t[3]).get("**") == kw[0]:
+                loops = sx.sym.loops(ev.nid)
+                hdr = [g for g in sx.cfg.guards(ev.nid) if g.kind == "T" and isinstance(g.ast, (ast.For, ast.AsyncFor))]
+                if len(loops) == 1 and loops[0] in mro and hdr:
+                    fb = [n.id for n in sx.cfg.nodes.values() if n.kind == "F" and n.of == hdr[0].of]
+                    ok = sx.cfg.must_pass(hdr[0].id, sx.cfg.EXIT, fb)
+    col.add("C20.R1", "BaseRef.__init__#simulates-full-cinit-chain", ok, sx.loc(sx.fn),
             "the pure-Python fallback calls the __cinit__ of every class of the MRO with the constructor arguments", "")
+
+
+LOGGING_HEADS = ("logger", "log", "logging", "_logger", "warnings")
+
+
+def _behaviour(sx):
+    """order-independent summary of what a function does: events with their conditions, logging left out"""
+    out = []
+    for ev in sx.events:
+        if ev.kind == "call":
+            f = ev.term[1]
+            root = f
+            while root[:1] == ("attr",):
+                root = root[1]
+            if root[:1] == ("glob",) and (root[1] in LOGGING_HEADS or root[1] in ("print", "_print")):
+                continue
+            essential = f in (("attr", ("glob", "object"), "__setattr__"), ("glob", "setattr")) or \
+                (f[:1] == ("attr",) and f[2] == "set_value")
+            if not essential:
+                continue    # pure computations (dir, isinstance, constructors, type(self) for a log message ...) are not effects
+            out.append(("call", S.show(ev.term, False), tuple(sorted(S.show(c, False) for c in sx.conds(ev.nid)))))
+        elif ev.kind == "raise":
+            v = ev.value
+            txt = S.show(v, False) if v is not None else ""
+            if ev.kind == "raise":
+                txt = txt.split("(")[0]
+            out.append((ev.kind, txt, tuple(sorted(S.show(c, False) for c in sx.conds(ev.nid)))))
+        elif ev.kind in ("store", "del"):
+            out.append((ev.kind, S.show(ev.target, False), tuple(sorted(S.show(c, False) for c in sx.conds(ev.nid)))))
+    return sorted(set(out))
 
 
 def _compiled_branches(col, rule="C20.R4"):
@@ -118,31 +179,44 @@ def _compiled_branches(col, rule="C20.R4"):
         if q not in found:
             col.add(rule, f"{q}#build-dependent-branch", True, "xdeps/refs.py", "documented build branch no longer present", "gone", note=False)
     # the two __setattr__ agree with each other apart from the ref class they build
-    a = repo.method("MutableRef", "__setattr__")
-    b = repo.method("ObjectAttrRef", "__setattr__")
-    norm = lambda fn: A.src(A.strip_docstring(fn.body)).replace("ItemRef", "X").replace("AttrRef", "X")
-    col.add(rule, "MutableRef.__setattr__~ObjectAttrRef.__setattr__#siblings-agree", norm(a) == norm(b), "xdeps/refs.py",
-            "the two __setattr__ implementations treat built-in attributes and the build flag identically", "")
+    a = sctx(repo, "MutableRef", "__setattr__")
+    b = sctx(repo, "ObjectAttrRef", "__setattr__")
+    norm = lambda sx: sorted((k, t.replace("ItemRef", "X").replace("AttrRef", "X"), c) for k, t, c in _behaviour(sx))   # noqa: E731
+    na, nb = norm(a), norm(b)
+    col.add(rule, "MutableRef.__setattr__~ObjectAttrRef.__setattr__#siblings-agree", na == nb, "xdeps/refs.py",
+            "the two __setattr__ implementations treat built-in attributes and the build flag identically (same events under the "
+            "same conditions, apart from the reference class they build)",
+            "" if na == nb else f"only in MutableRef: {[x for x in na if x not in nb][:3]}; only in ObjectAttrRef: {[x for x in nb if x not in na][:3]}")
 
 
-def _set_typed(expr, fn, repo) -> bool:
-    s = A.src(expr)
-    if isinstance(expr, ast.Call) and A.call_name(expr) in ("set", "frozenset"):
+def _task_like(t) -> bool:
+    """term denoting a task: a parameter, an entry / element of self.tasks, an element of find_tasks(...)"""
+    if t[:1] == ("param",):
         return True
-    if isinstance(expr, (ast.Set, ast.SetComp)):
+    if t[:1] == ("sub",) and t[1] == S.sattr("tasks"):
         return True
-    if isinstance(expr, ast.Attribute) and expr.attr in ("targets", "dependencies") and A.dotted(expr.value) in ("task", "self", "t", "tt"):
+    if t[:1] == ("elem",):
+        return S.is_call_of(t[1], meth="values") or S.is_call_of(t[1], meth="find_tasks") or t[1][:1] == ("param",)
+    return t == S.SELF
+
+
+def _set_typed(t) -> bool:
+    if t[:1] == ("alt",):
+        return any(_set_typed(a) for a in t[1])
+    if t[:1] == ("acc",) and t[1] == "set":
         return True
-    if isinstance(expr, ast.Call) and is_method_call(expr, "_get_dependencies"):
+    if t[:1] == ("set",):
         return True
-    if isinstance(expr, ast.Call) and is_method_call(expr, "keys") and any(k.arg == "exclude_columns" for k in expr.keywords):
+    if S.is_call_of(t) and t[1] in (("glob", "set"), ("glob", "frozenset")):
         return True
-    if isinstance(expr, ast.BinOp) and isinstance(expr.op, (ast.BitAnd, ast.BitOr, ast.Sub)) and (_set_typed(expr.left, fn, repo) or _set_typed(expr.right, fn, repo)):
+    if t[:1] == ("attr",) and t[2] in ("targets", "dependencies") and _task_like(t[1]):
         return True
-    if isinstance(expr, ast.Name):
-        # local assigned from a set-typed expression (and only mutated by add/update)
-        vals = [n.value for n in A.walk(fn) if isinstance(n, ast.Assign) and A.target_names(n.targets[0]) == [expr.id]]
-        return bool(vals) and all(_set_typed(v, fn, repo) for v in vals)
+    if S.is_call_of(t, meth="_get_dependencies"):
+        return True
+    if S.is_call_of(t, meth="keys") and any(n == "exclude_columns" for n, _ in t[3]):
+        return True
+    if t[:1] == ("op",) and t[1] in ("&", "|", "-", "^") and (_set_typed(t[2]) or _set_typed(t[3])):
+        return True
     return False
 
 
@@ -156,32 +230,47 @@ def _unordered(col, rule="C20.R5"):
     for m, c, fn in repo.all_functions():
         if m not in mods:
             continue
+        if not any(isinstance(n, (ast.For, ast.AsyncFor)) for n in A.walk(fn)):
+            continue
         q = f"{c.name}.{fn.name}" if c else fn.name
-        for n in A.walk(fn):
-            if isinstance(n, ast.For) and _set_typed(n.iter, fn, repo):
-                n_loops += 1
-                body_calls = [x for st in n.body for x in A.calls(st)]
-                sinks = [A.src(x)[:50] for x in body_calls if isinstance(x.func, ast.Attribute) and x.func.attr in ORDER_SINKS]
-                sinks += [A.src(x)[:50] for st in n.body for x in A.walk(st) if isinstance(x, (ast.Yield,))]
-                # first-insertion into dicts: X[k] = v / X[k].append
-                key = f"{q}#for-over:{A.src(n.iter)}"
-                if not sinks:
-                    col.ok(rule, key, m.loc(n), "iteration over a set whose order reaches no order-sensitive sink", "")
-                    continue
-                benign = BENIGN_UNORDERED.get(key)
-                col.add(rule, key, benign is not None, m.loc(n),
-                        "an iteration over a set (hash-seed dependent order) does not feed an order-sensitive sink, unless benign for a stated reason",
-                        benign or f"order reaches: {sinks}")
+        try:
+            sx = sctx(repo, c.name if c else None, fn.name, m.name.split(".", 1)[1] if c is None else None)
+        except (AnalysisError, NotImplementedError):
+            continue
+        if sx.cx.orig_fn is not fn:
+            continue
+        cfg = sx.cfg
+        for n in cfg.nodes.values():
+            if n.kind != "for":
+                continue
+            it = sx.sym.of(n.ast.iter, n.id)
+            if not _set_typed(it):
+                continue
+            n_loops += 1
+            tb = [x.id for x in cfg.nodes.values() if x.kind == "T" and x.of == n.id][0]
+            body = cfg.reachable(tb, avoid=[n.id])
+            sinks = []
+            for ev in sx.events:
+                if ev.nid in body or ev.nid == tb:
+                    if ev.kind == "call" and ev.term[1][:1] == ("attr",) and ev.term[1][2] in ORDER_SINKS:
+                        sinks.append(S.show(ev.term)[:50])
+                    elif ev.kind == "yield":
+                        sinks.append("yield")
+            key = f"{q}#for-over:{S.show(it, False)}"
+            if not sinks:
+                col.ok(rule, key, sx.loc(n.id), "iteration over a set whose order reaches no order-sensitive sink", "")
+                continue
+            benign = BENIGN_UNORDERED.get(key)
+            col.add(rule, key, benign is not None, sx.loc(n.id),
+                    "an iteration over a set (hash-seed dependent order) does not feed an order-sensitive sink, unless benign for a stated reason",
+                    benign or f"order reaches: {sinks}")
     # set passed as the start collection of the DFS
-    cx = fnctx(repo, "Manager", "find_taskids")
-    for r in (x for x in A.walk(cx.fn) if isinstance(x, ast.Return)):
-        v = r.value
-        if isinstance(v, ast.Name):
-            vals = [n.value for n in A.walk(cx.fn) if isinstance(n, ast.Assign) and A.target_names(n.targets[0]) == [v.id]]
-            v = vals[0] if len(vals) == 1 else v
-        if isinstance(v, ast.Call) and A.call_name(v) == "toposort" and len(v.args) >= 2:
-            st = _set_typed(v.args[1], cx.fn, repo)
-            col.add(rule, "Manager.find_taskids#set-as-dfs-start-order", not st, cx.loc(r),
+    sx = sctx(repo, "Manager", "find_taskids", public=True, keep=c01.ANCHORS)
+    for r in sx.of_kind("return"):
+        m_ = S.match(r.value, S.fcall("toposort", S.ANY, S.V("start")))
+        if m_ is not None:
+            st = _set_typed(m_["start"])
+            col.add(rule, "Manager.find_taskids#set-as-dfs-start-order", not st, sx.loc(r),
                     "the order in which start tasks are offered to the DFS does not depend on the hash seed",
                     "the start tasks are collected in a set; every start order gives a valid topological order on an acyclic rtasks, "
                     "but with the ordering cycles of known finding C01.R6 the run order, and then the contents, depend on PYTHONHASHSEED")
@@ -194,3 +283,8 @@ def check(col: Collector):
     _unordered(col)
     # one visited set shared across start vertices => any start order yields a valid order (acyclic case)
     check_toposort(col, "C20.R5")
+    # the run order is fixed by ordering edges, not by the iteration order of the start set: both directions of every
+    # producer -> consumer edge are recorded (shared with C02.R4)
+    sub = Collector(col.repo, "C20", col.tier)
+    c02._edges(sub, "C20.R5")
+    col.obs.extend(sub.obs)
